@@ -711,6 +711,15 @@ bool Parser::parse_patch_header(Patch& patch, PatchHeaderInfo& header_info, int 
     return should_parse_body;
 }
 
+// A line which is said to have no newline after it keeps the carriage return it ends in, there
+// being no newline which that could be a part of.
+static void mark_as_unterminated(Line& line)
+{
+    if (line.newline == NewLine::CRLF)
+        line.content += '\r';
+    line.newline = NewLine::None;
+}
+
 static Hunk hunk_from_context_parts(LineNumber old_start_line, const std::vector<PatchLine>& old_lines,
     LineNumber new_start_line, const std::vector<PatchLine>& new_lines)
 {
@@ -823,7 +832,7 @@ void Parser::parse_context_hunk(std::vector<PatchLine>& old_lines, LineNumber& o
     auto check_for_no_newline = [&](std::vector<PatchLine>& lines) {
         if (!lines.empty() && m_file.peek() == '\\') {
             get_line(line);
-            lines.back().line.newline = NewLine::None;
+            mark_as_unterminated(lines.back().line);
         }
     };
 
@@ -982,7 +991,7 @@ Patch Parser::parse_unified_patch(Patch& patch)
                 --new_lines_expected;
                 // At end of file for 'to', and found a '\ No newline at end of file'
                 if (new_lines_expected == 0 && m_file.peek() == '\\') {
-                    hunk.lines.back().line.newline = NewLine::None;
+                    mark_as_unterminated(hunk.lines.back().line);
                     get_line(line);
                 }
             }
@@ -991,7 +1000,7 @@ Patch Parser::parse_unified_patch(Patch& patch)
                 --old_lines_expected;
                 // At end of file for 'old', and found a '\ No newline at end of file'
                 if (old_lines_expected == 0 && m_file.peek() == '\\') {
-                    hunk.lines.back().line.newline = NewLine::None;
+                    mark_as_unterminated(hunk.lines.back().line);
                     get_line(line);
                 }
             }
@@ -1077,7 +1086,7 @@ Patch Parser::parse_normal_patch(Patch& patch)
 
         if (!current_hunk.lines.empty() && m_file.peek() == '\\') {
             get_line(patch_line, &newline);
-            current_hunk.lines.back().line.newline = NewLine::None;
+            mark_as_unterminated(current_hunk.lines.back().line);
         }
 
         // Expect --- if 'c' command
@@ -1105,7 +1114,7 @@ Patch Parser::parse_normal_patch(Patch& patch)
 
         if (!current_hunk.lines.empty() && m_file.peek() == '\\') {
             get_line(patch_line, &newline);
-            current_hunk.lines.back().line.newline = NewLine::None;
+            mark_as_unterminated(current_hunk.lines.back().line);
         }
     }
     return patch;
